@@ -152,7 +152,9 @@ def wsgi_environ(method="GET", path="/", headers=(), query="", body=b"", scheme=
                  script_name=""):
     import io
     env = {
-        "REQUEST_METHOD": method, "SCRIPT_NAME": script_name, "PATH_INFO": path, "QUERY_STRING": query,
+        # PEP 3333: the path arrives as UTF-8 bytes decoded with Latin-1
+        "REQUEST_METHOD": method, "SCRIPT_NAME": script_name.encode("utf-8").decode("latin-1"),
+        "PATH_INFO": path.encode("utf-8").decode("latin-1"), "QUERY_STRING": query,
         "SERVER_NAME": server[0], "SERVER_PORT": str(server[1]), "SERVER_PROTOCOL": "HTTP/1.1",
         "wsgi.version": (1, 0), "wsgi.url_scheme": scheme, "wsgi.input": io.BytesIO(body), "wsgi.errors": io.StringIO(),
         "wsgi.multithread": False, "wsgi.multiprocess": False, "wsgi.run_once": False,
